@@ -119,12 +119,8 @@ func (s *Stream) Name() string {
 // ReadByte reads a byte from the underlying source.
 // It throws an error if the stream is not an input binary stream.
 func (s *Stream) ReadByte() (byte, error) {
-	if err := s.initRead(); err != nil {
+	if err := s.prepareRead(streamTypeBinary); err != nil {
 		return 0, err
-	}
-
-	if s.streamType != streamTypeBinary {
-		return 0, errWrongStreamType
 	}
 
 	b, err := s.buf.ReadByte()
@@ -136,12 +132,8 @@ func (s *Stream) ReadByte() (byte, error) {
 }
 
 func (s *Stream) UnreadByte() error {
-	if err := s.initRead(); err != nil {
+	if err := s.prepareRead(streamTypeBinary); err != nil {
 		return err
-	}
-
-	if s.streamType != streamTypeBinary {
-		return errWrongStreamType
 	}
 
 	err := s.buf.UnreadByte()
@@ -155,12 +147,8 @@ func (s *Stream) UnreadByte() error {
 // ReadRune reads the next rune from the underlying source.
 // It throws an error if the stream is not an input text stream.
 func (s *Stream) ReadRune() (r rune, size int, err error) {
-	if err := s.initRead(); err != nil {
+	if err := s.prepareRead(streamTypeText); err != nil {
 		return 0, 0, err
-	}
-
-	if s.streamType != streamTypeText {
-		return 0, 0, errWrongStreamType
 	}
 
 	r, n, err := s.buf.ReadRune()
@@ -178,12 +166,8 @@ func (s *Stream) UnreadRune() error {
 		return nil
 	}
 
-	if err := s.initRead(); err != nil {
+	if err := s.prepareRead(streamTypeText); err != nil {
 		return err
-	}
-
-	if s.streamType != streamTypeText {
-		return errWrongStreamType
 	}
 
 	err := s.buf.UnreadRune()
@@ -286,6 +270,20 @@ func (s *Stream) Close() error {
 	}
 
 	return nil
+}
+
+// prepareRead refuses an input operation on units of the type t, or makes the stream ready for it.
+// An operation that is refused leaves the stream as it is: the eof_action is applied to accepted operations only.
+func (s *Stream) prepareRead(t streamType) error {
+	if s.mode != ioModeRead {
+		return errWrongIOMode
+	}
+
+	if s.streamType != t {
+		return errWrongStreamType
+	}
+
+	return s.initRead()
 }
 
 func (s *Stream) initRead() error {
